@@ -29,6 +29,10 @@ pub enum Kind {
     AuxLevelWord(u32, bool),
     /// valid aux buffer truncated to this length
     AuxTruncated(u16, bool),
+    /// buffer marked unused (first byte 0) with leftovers behind it: (length, tag, root selector, keygen?)
+    AuxRecycled(u16, u64, u8, bool),
+    /// a key with more leaves than a u64 can count (7 x H10) at this counter: lifetime and sign
+    TallKey(u64),
 }
 
 #[derive(Clone, Debug, Serialize, Deserialize)]
@@ -159,9 +163,13 @@ pub fn exercise_blob(h: HashId, blob: &[u8], what: &str) -> Result<String, (Stri
 }
 
 pub fn aux_exercise(h: HashId, aux_bytes: Vec<u8>, keygen: bool, what: &str) -> Result<String, (String, String)> {
+    aux_exercise_shape(h, &[(4, 5), (8, 2)], aux_bytes, keygen, what)
+}
+
+pub fn aux_exercise_shape(h: HashId, shape: &[Level], aux_bytes: Vec<u8>, keygen: bool, what: &str) -> Result<String, (String, String)> {
     let m = Model::rfc(h);
     let n = h.n();
-    let levels: Vec<Level> = vec![(4, 5), (8, 2)];
+    let levels: Vec<Level> = shape.to_vec();
     let seed = gen::expand(0xc11, n);
     let pk = hss::public_key(&m, &levels, &seed);
     let mut aux = AuxBuf::new(aux_bytes);
@@ -177,7 +185,8 @@ pub fn aux_exercise(h: HashId, aux_bytes: Vec<u8>, keygen: bool, what: &str) -> 
             }
         }
     } else {
-        let blob = hss::private_key_blob(&levels, 37, &seed);
+        let total: u64 = 1u64 << levels.iter().map(|l| l.1).sum::<u32>();
+        let blob = hss::private_key_blob(&levels, 37 % total, &seed);
         let (o, calls) = libapi::sign(h, b"aux", &blob, Cb::Accept, Some(&mut aux));
         match o {
             Out::Panic(p) => Err((format!("sign-{}", panic_key(&p)), format!("sign panics with {}: {}", what, p))),
@@ -279,6 +288,41 @@ pub fn check(c: &Case) -> Verdict {
             let _ = levels;
             aux_exercise(h, v, *keygen, &format!("a valid aux buffer with level word {:#010x}", word))
         }
+        Kind::AuxRecycled(len, tag, root, keygen) => {
+            let mut v = gen::expand(*tag, (*len as usize).max(1));
+            for b in v.iter_mut() {
+                if *b == 0 {
+                    *b = 0x99;
+                }
+            }
+            v[0] = 0;
+            let shape: Vec<Level> = match root % 4 {
+                0 => vec![(8, 2)],
+                1 => vec![(4, 5), (8, 2)],
+                2 => vec![(4, 2), (4, 2)],
+                _ => vec![(2, 10)],
+            };
+            aux_exercise_shape(h, &shape, v, *keygen, &format!("a recycled aux buffer of {} bytes (first byte 0, leftovers behind it) for a root of height {}", len, shape[0].1))
+        }
+        Kind::TallKey(ctr) => {
+            let levels: Vec<Level> = vec![(4, 10); 7];
+            let blob = hss::private_key_blob(&levels, *ctr, &seed);
+            let want = hss::total_leaves(&levels).saturating_sub(*ctr as u128).min(u64::MAX as u128);
+            match libapi::lifetime(h, &blob) {
+                Out::Panic(p) => Err((format!("lifetime-{}", panic_key(&p)), format!("get_lifetime panics for 7 x H10 at counter {}: {}", ctr, p))),
+                Out::Err => Err(("lifetime-err-live-key".into(), format!("get_lifetime refuses a live 7 x H10 key at counter {}", ctr))),
+                Out::Ok(v) if v as u128 != want => Err(("lifetime-value tall".into(), format!("get_lifetime = {} for 7 x H10 at counter {}, expected min(leaves - counter, u64::MAX) = {}", v, ctr, want))),
+                Out::Ok(_) => {
+                    let (o, calls) = libapi::sign(h, b"tall", &blob, Cb::Accept, None);
+                    match o {
+                        Out::Panic(p) => Err((format!("sign-{}", panic_key(&p)), format!("sign panics for 7 x H10 at counter {}: {}", ctr, p))),
+                        Out::Err => Err(("sign-err-live-key".into(), format!("sign refuses a live 7 x H10 key at counter {}", ctr))),
+                        Out::Ok(_) if calls.len() == 1 => Ok("ok".into()),
+                        Out::Ok(_) => Err(("callback-count".into(), "callback".into())),
+                    }
+                }
+            }
+        }
         Kind::AuxTruncated(l, keygen) => {
             let mut v = maux::expected_aux(&m, 4, 5, &seed, 2000).unwrap();
             v.truncate((*l as usize).min(v.len()));
@@ -332,6 +376,18 @@ pub fn run(ctx: &Ctx) {
             items.push(Case { hash: *h, kind: Kind::AuxLevelWord(w, true) });
             items.push(Case { hash: *h, kind: Kind::AuxLevelWord(w, false) });
         }
+        if h.n() == 16 {
+            for c in [0u64, 1, 2, 3, 1023, 1024, 1 << 40, (1 << 60) - 1, 1 << 63, u64::MAX - 1] {
+                items.push(Case { hash: *h, kind: Kind::TallKey(c) });
+            }
+        }
+        for root in 0..4u8 {
+            for len in [1u16, 5, 40, 100, 200, 400, 700, 1200, 3000, 40000] {
+                for keygen in [true, false] {
+                    items.push(Case { hash: *h, kind: Kind::AuxRecycled(len, len as u64 + root as u64, root, keygen) });
+                }
+            }
+        }
         let vlen = 4 + h.n() + (h.n() << 5) + (h.n() << 3) + (h.n() << 1);
         for l in 0..=vlen as u16 {
             items.push(Case { hash: *h, kind: Kind::AuxTruncated(l, l % 2 == 0) });
@@ -350,6 +406,7 @@ pub fn run(ctx: &Ctx) {
                 2 => any::<u64>().prop_map(Kind::Counter),
                 3 => (any::<u32>(), any::<bool>()).prop_map(|(w, k)| Kind::AuxLevelWord(w, k)),
                 2 => (any::<u8>(), any::<u8>(), any::<u64>(), any::<bool>()).prop_map(|(l, f, t, k)| Kind::AuxShort(l, f, t, k)),
+                2 => (1u16..3000, any::<u64>(), 0u8..3, any::<bool>()).prop_map(|(l, t, r, k)| Kind::AuxRecycled(l, t, r, k)),
             ];
             (gen::hash_id(), kind).prop_map(|(hash, kind)| Case { hash, kind }).boxed()
         },
